@@ -30,9 +30,9 @@ Dirs ==
 
 Num(a) == CASE a = "0" -> 0 [] a = "1" -> 1 [] a = "60" -> 60 [] OTHER -> -1
 
-Ages == {"absent", "0", "1", "59", "60", "neg5", "abc", "huge"}
+Ages == {"absent", "0", "1", "59", "60", "neg5", "abc", "huge", "overflow"}
 Cookies == {"none", "value", "empty", "empty_value", "value_empty"}
-Methods == {"GET", "HEAD", "POST"}
+Methods == {"GET", "HEAD", "POST", "get", "Head", "PUT"}
 Statuses == {200, 404, 500}
 
 (* a case: cc = sequence of header lines, each a sequence of directives; sp = spacing style *)
@@ -61,7 +61,7 @@ AgeVals(c) ==
     [] c.age = "59" -> {59}
     [] c.age = "60" -> {60}
     [] c.age = "neg5" -> {0, -5}
-    [] c.age = "huge" -> {Huge * 2}
+    [] c.age \in {"huge", "overflow"} -> {Huge * 2}     \* overflow: all digits, beyond 64 bits
 (* an overflowing value minus any Age is still beyond every clock *)
 Lts(c) == {x \in {IF b = Huge THEN Huge ELSE b - a : b \in Bases(c), a \in AgeVals(c)} : x > 0}
 
